@@ -118,6 +118,7 @@ def cases(draw):
         "style": style, "source": src, "cfg": cfg, "size": size, "entry": entry,
         "slack": [draw(slack), draw(slack), draw(slack), draw(slack)],
         "ratio": draw(st.sampled_from([0.5, 0.5, 1.0, 0.3, 2.0])),
+        "detect": draw(st.sampled_from([False, False, True])),
     }
     if entry == "str":
         case["alpha"] = 40 / 255
@@ -198,7 +199,11 @@ def check_render(case, rec):
     import term_image
 
     term_image.set_cell_ratio(case["ratio"])
-    env.apply(**case["cfg"])
+    # "detect": the classes start undetected and the library's own is_supported() runs at construction (support is
+    # forced so that every identity can be instantiated), instead of the harness pre-setting the detected state
+    env.apply(detect=bool(case.get("detect")), **case["cfg"])
+    if case.get("detect"):
+        rec.label("library_detects_terminal")
     image, pil = make_image(case)
     try:
         _check(case, rec, image, Screen, anchor, DEFAULT_SGR)
